@@ -6,13 +6,13 @@ EXTENDS Pipeline, IOUtils
 Rec == ndJsonDeserialize(IOEnv.TRACE)
 VARIABLES l, nviol
 tvars == <<case, l, nviol>>
-TraceInit == case = [algo |-> "none", level |-> Lvl("default", 0), payload |-> "empty", codec |-> "bytes", batch |-> 0]
+TraceInit == case = [algo |-> "none", level |-> Lvl("default", 0), payload |-> "empty", codec |-> "bytes", batch |-> 0, history |-> "fresh"]
              /\ l = 1 /\ nviol = 0
 Flag(k, kind) == PrintT(<<"VIOL", k, l, {"C14"}, kind>>) /\ nviol' = nviol + 1
 Check(e) ==
     CASE e.ev = "roundtrip" ->
             IF e.res = "eq" /\ e.n = (IF e.batch = 0 THEN 1 ELSE e.batch) THEN nviol' = nviol
-            ELSE Flag(e.case, e.algo \o "_" \o e.level \o "_" \o e.payload \o "_" \o e.codec \o "_roundtrip_" \o e.res)
+            ELSE Flag(e.case, e.algo \o "_" \o e.level \o "_" \o e.payload \o "_" \o e.codec \o "_" \o e.history \o "_roundtrip_" \o e.res)
       [] e.ev = "invalid" ->
             \* bytes that are not valid for the codec / decompressor: error, never a value
             IF e.res = "err" THEN nviol' = nviol
